@@ -227,6 +227,50 @@ def gen_case(rng, kn):
 _CLASSES = {}
 
 
+class Probe(object):
+    """A callback that asks the machine's introspection API from INSIDE an event (machine-level prepare / before / after
+    / finalize callbacks, every state's on_enter / on_exit, conditions of transitions — also of transitions declared
+    locally in nested scopes, which run while the machine is inside that scope) and compares the answers with the
+    answers at rest: the tables do not change during an event.  Always returns True (usable as a condition)."""
+
+    def __init__(self):
+        self.machine = None
+        self.enabled = False
+        self.rest = None
+        self.problems = []
+        self.calls = 0
+
+    def __call__(self, *_a, **_k):
+        if not self.enabled or self.rest is None or len(self.problems) > 2:
+            return True
+        self.calls += 1
+        m = self.machine
+        for name, want in self.rest['triggers'].items():
+            try:
+                got = sorted(set(m.get_triggers(name)))
+            except BaseException as e:  # noqa
+                got = 'raised %s' % type(e).__name__
+            if got != want:
+                self.problems.append({'call': 'get_triggers(%r)' % name, 'inside_callback': got, 'at_rest': want,
+                                      'scope': list(m.prefix_path)})
+                return True
+        try:
+            got = sorted(map(id, m.get_transitions()))
+        except BaseException as e:  # noqa
+            got = 'raised %s' % type(e).__name__
+        if got != self.rest['transitions']:
+            self.problems.append({'call': 'get_transitions()', 'inside_callback': str(got)[:80], 'scope': list(m.prefix_path)})
+        return True
+
+    def arm(self, names):
+        m = self.machine
+        self.rest = {'triggers': {n: sorted(set(m.get_triggers(n))) for n in names}, 'transitions': sorted(map(id, m.get_transitions()))}
+        self.enabled = True
+
+    def disarm(self):
+        self.enabled = False
+
+
 def machine_class(sep):
     from transitions.extensions.nesting import HierarchicalMachine, NestedState
     if sep == '_':
@@ -245,7 +289,7 @@ def state_object(cls, n):
     return st
 
 
-def to_dicts(nodes, sep):
+def to_dicts(nodes, sep, probe=None):
     out = []
     for n in nodes:
         if not n['children'] and not n['local']:
@@ -257,21 +301,21 @@ def to_dicts(nodes, sep):
         d = {'name': n['name']}
         if n.get('embed'):
             # the documented way to reuse a machine: `children: <HierarchicalMachine instance>`
-            child = machine_class(sep)(model=None, states=to_dicts(n['children'], sep),
+            child = machine_class(sep)(model=None, states=to_dicts(n['children'], sep, probe),
                                        initial=n['initial'] or n['children'][0]['name'],
-                                       transitions=[[e, sep.join(src), sep.join(dst)] for e, src, dst in n['local']],
+                                       transitions=[[e, sep.join(src), sep.join(dst), probe] for e, src, dst in n['local']],
                                        auto_transitions=n['embed']['auto'])
             d['children'] = child
             out.append(d)
             continue
         if n['parallel']:
-            d['parallel'] = to_dicts(n['children'], sep)
+            d['parallel'] = to_dicts(n['children'], sep, probe)
         elif n['children']:
-            d['children'] = to_dicts(n['children'], sep)
+            d['children'] = to_dicts(n['children'], sep, probe)
             if n['initial']:
                 d['initial'] = n['initial']
         if n['local']:
-            d['transitions'] = [[e, sep.join(src), sep.join(dst)] for e, src, dst in n['local']]
+            d['transitions'] = [[e, sep.join(src), sep.join(dst), probe] for e, src, dst in n['local']]
         out.append(d)
     return out
 
@@ -303,8 +347,9 @@ class HRun(object):
         self.registered = []
         self.all_claims = {}
         self.deleted = {}       # model index -> names remove_transition deleted from the model (model_override)
+        self.probe = Probe()
         try:
-            states = to_dicts(case['tree'], self.sep)
+            states = to_dicts(case['tree'], self.sep, self.probe)
             initial = self.sep.join(case['initial'])
             if case.get('enum'):
                 states = make_enums(case['tree'], [], self.enum_path)
@@ -312,12 +357,31 @@ class HRun(object):
                 if len(case['initial']) == 1:
                     initial = self.member[tuple(case['initial'])]
             self.machine = cls(model=None, states=states, initial=initial,
-                               transitions=[[e, self.name_or_member(s, i), None if d is None else self.name_or_member(d, i + 1)]
-                                            for i, (e, s, d) in enumerate(case['transitions'])],
+                               transitions=[[e, self.name_or_member(s, i), None if d is None else self.name_or_member(d, i + 1),
+                                             self.probe] for i, (e, s, d) in enumerate(case['transitions'])],
+                               prepare_event=[self.probe], before_state_change=[self.probe],
+                               after_state_change=[self.probe], finalize_event=[self.probe],
                                auto_transitions=case['auto'], model_attribute=case['attr'], model_override=case['override'])
+            self.probe.machine = self.machine
+            self.hook_states()
         except BaseException as e:  # noqa
             self.machine = None
             self.error = (type(e).__name__, str(e)[:200])
+
+    def hook_states(self):
+        """every state's on_enter / on_exit asks the introspection API too"""
+        for _p, st in walk_states(self.machine):
+            for kind in ('enter', 'exit'):
+                if self.probe not in getattr(st, 'on_' + kind):
+                    st.add_callback(kind, self.probe)
+
+    def probed(self, call):
+        names = [self.sep.join(p) for p, _s in walk_states(self.machine)]
+        self.probe.arm(names[:14])
+        try:
+            return call()
+        finally:
+            self.probe.disarm()
 
     def name_or_member(self, path, k=0):
         """a state as passed to the API: the joined name, or (every other time, for Enum machines) the member"""
@@ -337,15 +401,17 @@ class HRun(object):
             elif k == 'fire':
                 if op[1] not in self.registered:
                     return ('skip',)
-                return ('ret', bool(m.trigger_event(self.objs[op[1]], op[2])))
+                return ('ret', bool(self.probed(lambda: m.trigger_event(self.objs[op[1]], op[2]))))
             elif k == 'to':
                 if op[1] not in self.registered:
                     return ('skip',)
-                m.to_state(self.objs[op[1]], self.sep.join(op[2]))
+                self.probed(lambda: m.to_state(self.objs[op[1]], self.sep.join(op[2])))
             elif k == 'state':
                 m.add_states(self.sep.join(op[1] + [op[2]]))
+                self.hook_states()
             elif k == 'trans':
-                m.add_transition(op[1], self.name_or_member(op[2], len(op[1])), None if op[3] is None else self.name_or_member(op[3]))
+                m.add_transition(op[1], self.name_or_member(op[2], len(op[1])), None if op[3] is None else self.name_or_member(op[3]),
+                                 conditions=self.probe)
             elif k == 'local':
                 _k, scope, e, src, dst = op
                 self.local_add(m, scope, e, self.sep.join(src), self.sep.join(dst))
@@ -367,7 +433,7 @@ class HRun(object):
 
     def local_add(self, m, scope, e, src, dst):
         if not scope:
-            m.add_transition(e, src, dst)
+            m.add_transition(e, src, dst, conditions=self.probe)
             return
         with m(scope[0]):
             self.local_add(m, scope[1:], e, src, dst)
@@ -896,6 +962,11 @@ def run_case(case):
         if wreq is not None and r[0] == 'ok':
             names = wrapper_names(wsteps)
             pending.append(('c11wrap', wreq, {'names': names, 'kinds': [attr_kind(run.objs[op[1]], n) for n in names], 'op': op}))
+        if run.probe.problems:
+            fails.append(('monitor', 'introspection-inside-a-callback-differs-from-the-answer-at-rest',
+                          dict(run.probe.problems[0], step=k, op=op), 'C11.nested.introspection-inside-a-callback'))
+            break
+        facts['probes'] = run.probe.calls
         if op[0] == 'remove' and case['override'] and r[0] == 'ok' and \
                 op[1] not in all_event_names(scope_tables(run.machine, case['sep'])):
             for i in run.registered:
